@@ -307,19 +307,18 @@ Section L1Proofs.
   Definition replays (h : list (aop Item)) (b : ask) : Prop :=
     Forall (aop_ok _) h /\ forall y, h_weight h y = a_get (a_ents _ b) y.
 
-  Lemma Inv_merge a ta b tb h : Inv a ta -> Inv b tb -> replays h b -> a_ents _ b <> [] ->
+  Lemma Inv_merge a ta b tb h : Inv a ta -> Inv b tb -> replays h b ->
     Inv (a_merge _ eqb a b h) (fun y => ta y + tb y).
   Proof.
-    intros Ha Hb [Hok Hw] Hne. unfold a_merge.
-    destruct (a_ents _ b) eqn:Eb; [congruence|]. rewrite <- Eb in *. clear Eb.
+    intros Ha Hb [Hok Hw]. unfold a_merge.
     destruct (Inv_run h a ta Ha Hok) as (Hnd & Hoff & Hbr).
     destruct Hb as (_ & Hoffb & Hbb).
     split; [exact Hnd|]. split; [simpl; lia|]. intros y. simpl.
     specialize (Hbr y). specialize (Hbb y). rewrite Hw in Hbr. lia.
   Qed.
 
-  Lemma tot_merge a b h : a_ents _ b <> [] -> a_tot _ (a_merge _ eqb a b h) = a_tot _ a + a_tot _ b.
-  Proof. intros Hne. unfold a_merge. destruct (a_ents _ b); [congruence|reflexivity]. Qed.
+  Lemma tot_merge a b h : a_tot _ (a_merge _ eqb a b h) = a_tot _ a + a_tot _ b.
+  Proof. reflexivity. Qed.
 
   (* --- round trip --- *)
   Lemma nopurge_run h : h_nopurge _ h -> forall s,
@@ -347,14 +346,13 @@ Section L1Proofs.
     intros y. simpl. rewrite E, Hw. simpl. apply Hb.
   Qed.
 
-  (* --- every sketch reachable by updates, purges with any decrement, merges (replay in any order with any purges,
-         operand with at least one counter) and round trips brackets the true weights and has the exact total --- *)
+  (* --- every sketch reachable by updates, purges with any decrement, merges (replay in any order with any purges) and round trips brackets the true weights and has the exact total --- *)
   Inductive Reach : ask -> (Item -> Z) -> Z -> Prop :=
   | R_new : Reach (a_empty _) (fun _ => 0) 0
   | R_upd s t T x w : Reach s t T -> 0 < w ->
       Reach (a_step s (AUpd _ x w)) (fun y => t y + (if eqb x y then w else 0)) (T + w)
   | R_purge s t T d : Reach s t T -> 0 <= d -> Reach (a_step s (APurge _ d)) t T
-  | R_merge a ta Ta b tb Tb h : Reach a ta Ta -> Reach b tb Tb -> replays h b -> a_ents _ b <> [] ->
+  | R_merge a ta Ta b tb Tb h : Reach a ta Ta -> Reach b tb Tb -> replays h b ->
       Reach (a_merge _ eqb a b h) (fun y => ta y + tb y) (Ta + Tb)
   | R_roundtrip s t T h : Reach s t T -> h_nopurge _ h -> (forall y, h_weight h y = a_get (a_ents _ s) y) ->
       a_ents _ s <> [] -> Reach (a_roundtrip _ eqb s h) t T.
@@ -362,13 +360,13 @@ Section L1Proofs.
   Lemma Reach_Inv s t T : Reach s t T -> Inv s t /\ a_tot _ s = T.
   Proof.
     induction 1 as [|s t T x w Hr [IH1 IH2] Hw|s t T d Hr [IH1 IH2] Hd
-                    |a ta Ta b tb Tb h Ha [IHa1 IHa2] Hb [IHb1 IHb2] Hrep Hne
+                    |a ta Ta b tb Tb h Ha [IHa1 IHa2] Hb [IHb1 IHb2] Hrep
                     |s t T h Hr [IH1 IH2] Hnp Hw Hne].
     - split; [apply Inv_empty|reflexivity].
     - split; [|simpl; lia]. apply (Inv_step s t (AUpd _ x w)); simpl; auto.
     - split; [|simpl; lia].
       eapply Inv_ext; [|apply (Inv_step s t (APurge _ d)); simpl; auto]. intros; simpl; lia.
-    - split; [now apply Inv_merge|]. rewrite tot_merge; auto. lia.
+    - split; [now apply Inv_merge|]. rewrite tot_merge. lia.
     - split; [now apply Inv_roundtrip|]. unfold a_roundtrip. destruct (a_ents _ s); [congruence|]. simpl. exact IH2.
   Qed.
 
@@ -524,7 +522,6 @@ Section L1Proofs.
     EInv h (a_merge_det _ eqb cap a b order).
   Proof.
     intros Hcap Hh Ha Hb Hperm. unfold a_merge_det.
-    destruct (a_ents _ b) eqn:Eb; [exact Ha|]. rewrite <- Eb in *. clear Eb.
     destruct Hb as (Hoffb & Hposb & Hinvb).
     assert (Hpo : Forall (fun xw : Item * Z => 0 < snd xw) order).
     { unfold Pos in Hposb. rewrite Forall_forall in *. intros kv Hin. apply Hposb.
